@@ -17,6 +17,10 @@ const BLOCK_SIZE: usize = 64;
 
 const DEFERRED_BLOCK_BATCH_SIZE: usize = 32;
 
+// Flag bit set in `Block::write` once the block has been detached from its bucket by a clear, so that writers which
+// still hold a pointer to it can no longer claim a slot in it.
+const SEALED: usize = 1 << (usize::BITS - 1);
+
 /// Discrete chunk of values with atomic read/write access.
 struct Block<T> {
     // Write index.
@@ -88,9 +92,22 @@ impl<T> Block<T> {
             return true;
         }
 
+        // A sealed block was already waited on by the clear which sealed it, and accepts no further writes.
+        let write = self.write.load(Ordering::Acquire);
+        if write & SEALED != 0 {
+            return true;
+        }
+
         // We have to clamp self.write since multiple threads might race on filling the last block,
         // so the value could actually exceed BLOCK_SIZE.
-        min(self.write.load(Ordering::Acquire), BLOCK_SIZE) == len
+        min(write, BLOCK_SIZE) == len
+    }
+
+    // Seals this block so that no further slots can be claimed, returning the number of slots claimed so far.
+    //
+    // Must only be called once, by the clear that detached this block from the bucket.
+    fn seal(&self) -> usize {
+        min(self.write.fetch_or(SEALED, Ordering::AcqRel) & !SEALED, BLOCK_SIZE)
     }
 
     /// Gets a slice of the data written to this block.
@@ -397,6 +414,16 @@ impl<T> AtomicBucket<T> {
             metrics::verif::point("bucket.clear.after_detach", 0);
             let backoff = Backoff::new();
             let mut freeable_blocks = Vec::new();
+
+            // Writers may still hold a pointer to the block we just detached. Seal it so that they cannot claim any
+            // more slots in it (they will retry against the new tail instead), and wait for the slots that were
+            // already claimed to be written, so that no value ends up in a block nobody will ever read again.
+            let detached_block = unsafe { block_ptr.deref() };
+            let claimed = detached_block.seal();
+            while detached_block.len() < claimed {
+                backoff.snooze();
+            }
+
 
             // While we have a valid block -- either `tail` or the next block as we keep reading -- we
             // load the data from each block and process it by calling `f`.
